@@ -217,6 +217,15 @@ def classify_sync(owner, it):
         raise Unparsable("block_on body %r" % rest)
     m = re.fullmatch(r"self\.ldap\.(\w+)=(.+);self", b)
     if m and owner == "LdapConn": return '.assign "%s" %s' % (m.group(1), expr(m.group(2), env))
+    # `self.ldap.SETTER(ARGS); self` where SETTER is a one-line modifier of the async API
+    # (`self.FIELD = VALUE; self`): the call is inlined, which gives the `assign` row again
+    m = re.fullmatch(r"self\.ldap\.(\w+)\(([^;{}=]*)\);self", b)
+    if m and owner == "LdapConn" and m.group(1) in LDAP_SETTERS:
+        field, vtext, pnames = LDAP_SETTERS[m.group(1)]
+        args = split_top(m.group(2))
+        if len(args) == len(pnames):
+            env2 = {pn: expr(a, env) for pn, a in zip(pnames, args)}
+            return '.assign "%s" %s' % (field, expr(vtext, env2))
     m = re.fullmatch(r"(self\.ldap|self\.stream\.ldap_handle\(\)|self\.stream)\.(\w+)\(([^;{}=]*)\)", b)
     if m and "(" not in m.group(3).replace("()", ""):
         return '.direct %s "%s" %s' % (RECV[m.group(1)], m.group(2), args_of(m.group(3), env))
@@ -225,10 +234,12 @@ def classify_sync(owner, it):
     d = classify_ctor(b, env, "")
     if d and owner == "LdapConn" and it["ret"] == "->Result<Self>": return d
     m = re.fullmatch(r"let rt=runtime::Builder::new_(\w+)\(\)\.enable_all\(\)\.build\(\)\?;let ldap=rt\.block_on\(async move\{"
-                     r"let\(conn,ldap\)=match (LdapConnAsync::\w+)\(([^(){}]*)\)\.await\{Ok\(\(conn,ldap\)\)=>\(conn,ldap\),"
-                     r"Err\(e\)=>return Err\(e\),\};(super::drive!\(conn\);)?Ok\(ldap\)\}\)\?;Ok\(LdapConn\{ldap,rt\}\)", b)
+                     r"let\(conn,ldap\)=(?:match (LdapConnAsync::\w+)\(([^(){}]*)\)\.await\{Ok\(\(conn,ldap\)\)=>\(conn,ldap\),"
+                     r"Err\(e\)=>return Err\(e\),\}|(LdapConnAsync::\w+)\(([^(){}]*)\)\.await\?);(super::drive!\(conn\);)?"
+                     r"Ok(?:::<_,LdapError>)?\(ldap\)\}\)\?;Ok\(LdapConn\{ldap,rt\}\)", b)
     if m and owner == "LdapConn" and it["ret"] == "->Result<Self>":
-        return '.connect "%s" "%s" %s %s' % (m.group(1), m.group(2), args_of(m.group(3), env), "true" if m.group(4) else "false")
+        callee, cargs = (m.group(2), m.group(3)) if m.group(2) else (m.group(4), m.group(5))
+        return '.connect "%s" "%s" %s %s' % (m.group(1), callee, args_of(cargs, env), "true" if m.group(6) else "false")
     raise Unparsable("body %r" % b)
 
 
@@ -251,8 +262,22 @@ def strs(xs):
     return "[" + ", ".join(q(x) for x in xs) + "]"
 
 
+LDAP_SETTERS = {}
+
+
+def read_ldap_setters():
+    """one-line modifiers of `impl Ldap`: name -> (field, value text, parameter names)"""
+    LDAP_SETTERS.clear()
+    lfns, _ = pub_fns(mask(open(os.path.join(SRC, "ldap.rs")).read()), "Ldap", "ldap.rs")
+    for it in lfns:
+        if it["is_async"]: continue
+        m = re.fullmatch(r"self\.(\w+)=(.+);self", it["body"])
+        if m: LDAP_SETTERS[it["name"]] = (m.group(1), m.group(2), param_names(it))
+
+
 def translate():
     rows, skipped = [], []
+    read_ldap_setters()
     sync = mask(open(SYNC_RS).read())
     for owner in ("LdapConn", "EntryStream"):
         blocks = impl_blocks(sync, owner)
